@@ -99,3 +99,9 @@ CHECKS["C02"] = {
   "text": "For a generated universe, program and cut bar k: account rows 0..k, records stamped <= bar k, per-operation outcomes and deep copies of the snapshots handed to all four strategy hooks for bars <= k are identical between H and H' (H' differs after bar k in ETH / oSQTH / AVAX paths, pool ticks, liquidity, volumes, indices, normalisation factor, GLP / GM pool state, option marks of later hours); every supplied frame (market data incl. nested order-book lists, price frame) has the same fingerprint before the Actuator sees it and after the run; a second run on the very same frame objects with a fresh account reproduces history and records exactly. All market types, 1/2/5/15/60-minute bars. Sampled exploration.",
   "note": "'Bars 0..k' means every minute row of bins 0..k and every option snapshot whose hour is <= bar k's hour. A run may replace market.data by a resampled frame; the supplied objects are what is fingerprinted.",
 }
+
+CHECKS["C19"] = {
+  "technique": "Hypothesis generated universes and sets of scripted strategies run by the real BacktestManager (sequential in-process path and forked pool path in a fresh subprocess), differential against running each strategy alone",
+  "text": "1-4 strategies with generated programs over a generated market mix (incl. ones leaving supplies, debts, liquidity positions, vaults, option holdings, GLP / GM open), generated order and worker count 2..n; each strategy's account history (net value, balances, every market's balance fields), operation outcomes, record classes and final raw positions, written from finalize(), must equal those of the same strategy run alone by a manager with freshly built inputs - on the threads=1 path and on the fork-pool path. Sampled exploration.",
+  "note": "OS scheduling of the pool workers is not controlled. The forked path runs in a harness subprocess per case (the manager sets the start method once per process); one in four cases exercises it.",
+}
